@@ -641,3 +641,16 @@ where
         let _ = self.inner.streams.recv_eof(true);
     }
 }
+
+#[cfg(feature = "h2_verif")]
+impl<T, P, B> Connection<T, P, B>
+where
+    T: AsyncRead + AsyncWrite + Unpin,
+    P: Peer,
+    B: Buf,
+{
+    /// Read-only statistics snapshot (verification harness).
+    pub(crate) fn verif_snapshot(&self) -> String {
+        self.inner.streams.verif_snapshot()
+    }
+}
